@@ -10,6 +10,8 @@ import (
 	"fmt"
 	"math/rand"
 	"sort"
+	"sync"
+	"sync/atomic"
 
 	enc "github.com/named-data/ndnd/std/encoding"
 	"github.com/named-data/ndnd/std/ndn"
@@ -64,6 +66,68 @@ func c12Independent(signer string, signed, sigVal []byte) bool {
 
 func c12Signed(s string) bool { return s != "none" && s != "empty" }
 
+// c12Concurrent: untampered packets of all signer types are validated from several goroutines at
+// once (a forwarder or application validates packets on more than one goroutine): every call must
+// accept, exactly as it does when the calls are made one after the other.
+func c12Concurrent(c *h.Ctx, id string, r *rand.Rand) {
+	c.Eval(1)
+	type item struct {
+		signer string
+		sig    ndn.Signature
+		cov    enc.Wire
+	}
+	var items []item
+	for len(items) < 12 {
+		cs := pkt.Gen(r)
+		if !c12Signed(cs.Signer) {
+			continue
+		}
+		if len(cs.PayloadBytes()) > 300 {
+			b := cs.PayloadBytes()[:r.Intn(300)]
+			cs.Payload = [][]byte{b}
+		}
+		var built *pkt.Built
+		var err error
+		if pi := h.Guard(func() { built, err = cs.Build() }); pi != nil || err != nil || built == nil {
+			continue
+		}
+		sig, cov, derr := pkt.DecodeSig(cs.Kind, enc.NewBufferReader(append([]byte{}, built.Bytes...)))
+		if derr != nil || sig == nil {
+			continue
+		}
+		if !c12Validate(cs.Signer, cov, sig) {
+			continue // sequential rejection is the single-packet path's business
+		}
+		items = append(items, item{cs.Signer, sig, cov})
+	}
+	var wg sync.WaitGroup
+	var rejected, panicked atomic.Int64
+	var firstBad atomic.Value
+	for g := 0; g < 8; g++ {
+		wg.Add(1)
+		go func(g int) {
+			defer wg.Done()
+			for k := 0; k < 60; k++ {
+				it := items[(g*7+k)%len(items)]
+				ok := false
+				if pi := h.Guard(func() { ok = c12Validate(it.signer, it.cov, it.sig) }); pi != nil {
+					panicked.Add(1)
+					firstBad.CompareAndSwap(nil, it.signer+": panic: "+pi.Value)
+				} else if !ok {
+					rejected.Add(1)
+					firstBad.CompareAndSwap(nil, it.signer+": rejected")
+				}
+			}
+		}(g)
+	}
+	wg.Wait()
+	c.Count("concurrent_validations", 8*60)
+	if rejected.Load() > 0 || panicked.Load() > 0 {
+		c.Violation("C12:untampered-rejected-under-concurrent-validation", id,
+			fmt.Sprintf("%d of 480 concurrent validations of untampered packets were rejected and %d panicked (each of these packets is accepted when validated alone); first: %v", rejected.Load(), panicked.Load(), firstBad.Load()), nil)
+	}
+}
+
 func c12Run(c *h.Ctx) {
 	r := c.Rng("c12")
 	n := c.Pick(40, 1200)
@@ -100,6 +164,9 @@ func c12Run(c *h.Ctx) {
 		c12One(c, id, cs, sr)
 		if i%4 == 3 && c12Signed(cs.Signer) {
 			c12Reuse(c, id+"-reuse", cs, br)
+		}
+		if i%10 == 9 {
+			c12Concurrent(c, id+"-concurrent", br)
 		}
 	}
 }
